@@ -40,6 +40,11 @@ thread_local! {
     static LATE_VIOLATION: RefCell<Option<Violation>> = const { RefCell::new(None) };
 }
 
+/// How many deliberate application-handler panics (world::DELIBERATE_PANIC) this run has seen so far.
+pub fn deliberate_panics() -> u32 {
+    DELIBERATE.with(|d| d.get())
+}
+
 /// Register work (and values to keep alive) for after the runtime of this run has been dropped:
 /// "tearing down the runtime with handles still alive".
 pub fn after_runtime_teardown(f: Box<dyn FnOnce()>) {
